@@ -1276,7 +1276,64 @@ def evreload(rng):
     return {"cfg": _cfg(rng, n), "ops": ops}
 
 
-FAMILIES = {"evreload": evreload, "cfgreload": cfgreload, "badonion": badonion, "inflightadd": inflightadd, "openshut": openshut, "windowlimit": windowlimit, "tampercs": tampercs, "fwdlate": fwdlate, "asyncsign": asyncsign, "skim": skim, "batchopen": batchopen, "discomplete": discomplete, "monbcast": monbcast, "staletwo": staletwo, "bigclaim": bigclaim, "dustclose": dustclose, "slots": slots, "asynccross": asynccross, "blockedjump": blockedjump, "feecross": feecross, "opendisc": opendisc, "chainsettle": chainsettle, "crosslimit": crosslimit, "evhold": evhold, "failwin": failwin, "fanin": fanin, "inflight": inflight, "holdcell": holdcell, "stalehold": stalehold}
+def dustflood(rng):
+    """Many HTLCs below the dust limit at once, in both directions, the node's own and forwarded ones, against a small
+    configured dust-exposure limit (room for 2-8 of them), across limit changes by the user, asynchronous
+    persistence, disconnections and reloads (C02: the total of HTLCs without an output stays within the configured
+    limit: a node does not offer one more that takes it over; C01: refusing them harms nothing)."""
+    n = rng.choice([2, 3, 3])
+    pairs = [(i, i + 1) for i in range(n - 1)]
+    dirs = pairs + [(b, a) for (a, b) in pairs]
+    ops = []
+    npay = 0
+    # a small limit on every node's channels (300 sat HTLCs: 2-8 of them fit)
+    caps = [rng.choice([700000, 1000000, 1500000, 2500000]) for _ in range(n)]
+    for i in range(n):
+        for (a, b) in pairs:
+            if i in (a, b):
+                ops.append({"op": "config", "node": i, "peer": b if i == a else a, "max_dust_msat": caps[i]})
+    if rng.random() < 0.3:
+        ops.append({"op": "persist_mode", "node": rng.randrange(n), "mode": "inprogress"})
+    for rnd in range(rng.choice([1, 2, 2, 3])):
+        for _ in range(rng.randrange(3, 14)):
+            a, b = rng.choice([(0, n - 1), (0, n - 1), (n - 1, 0), (0, 1), (1, 0), (n - 1, n - 2)])
+            if a == b:
+                continue
+            ops.append({"op": "send", "from": a, "to": b, "amt": rng.choice(["dust", "dust", "dust", "dust-edge", "justabove"])})
+            npay += 1
+            r = rng.random()
+            if r < 0.35:
+                ops += _deliveries(rng, dirs, rng.randrange(1, 6))
+            elif r < 0.5:
+                ops.append({"op": "deliver_all"})
+            if rng.random() < 0.15:
+                ops.append({"op": "forward", "node": rng.randrange(n)})
+        r = rng.random()
+        if r < 0.2:
+            i = rng.randrange(n)
+            a, b = rng.choice([p for p in pairs if i in p])
+            ops.append({"op": "config", "node": i, "peer": b if i == a else a, "max_dust_msat": rng.choice([400000, 700000, 3000000])})
+        # (no fee rises here: a fundee with a small FIXED limit closes the channel when the funder's update_fee turns pending
+        #  HTLCs into dust beyond that limit -- "may over-expose us to dust-in-flight" --, which is the library's documented
+        #  self-protection against a limit the funder cannot know, not a disagreement)
+        elif r < 0.5:
+            a, b = rng.choice(pairs)
+            ops += [{"op": "disconnect", "a": a, "b": b}, {"op": "reconnect", "a": a, "b": b}]
+        elif r < 0.6:
+            x = rng.randrange(n)
+            ops.append({"op": "reload", "node": x})
+            ops += [{"op": "reconnect", "a": a, "b": b} for (a, b) in pairs if x in (a, b)]
+        ops += _deliveries(rng, dirs, rng.randrange(0, 10))
+        if rng.random() < 0.5:
+            ops.append({"op": "deliver_all"})
+            for k in rng.sample(range(npay), min(npay, rng.randrange(0, 5))):
+                ops.append({"op": "claim" if rng.random() < 0.6 else "fail", "pay": k})
+                ops += _deliveries(rng, dirs, rng.randrange(0, 4))
+    ops += _wind_down(npay, rng, pairs)
+    return {"cfg": _cfg(rng, n), "ops": ops}
+
+
+FAMILIES = {"dustflood": dustflood, "evreload": evreload, "cfgreload": cfgreload, "badonion": badonion, "inflightadd": inflightadd, "openshut": openshut, "windowlimit": windowlimit, "tampercs": tampercs, "fwdlate": fwdlate, "asyncsign": asyncsign, "skim": skim, "batchopen": batchopen, "discomplete": discomplete, "monbcast": monbcast, "staletwo": staletwo, "bigclaim": bigclaim, "dustclose": dustclose, "slots": slots, "asynccross": asynccross, "blockedjump": blockedjump, "feecross": feecross, "opendisc": opendisc, "chainsettle": chainsettle, "crosslimit": crosslimit, "evhold": evhold, "failwin": failwin, "fanin": fanin, "inflight": inflight, "holdcell": holdcell, "stalehold": stalehold}
 
 
 def make(rng, family, count):
